@@ -27,31 +27,50 @@ pub fn exec(rec: &Value, _st: &mut State) -> Value {
             let dim = gi(rec, "dim");
             let qs = gvvi(rec, "qs");
             let mut outs = vec![];
+            // tf > 0: the curve that is queried is DERIVED from the built one by transformed_by (translation / quarter turn
+            // plus translation); queries are moved along and the answers moved back, so the judge sees the same scene
+            let tfk = gi_or(rec, "tf", 0);
+            const QDIR: f64 = 16384.0;
             if dim == 2 {
                 let (s, c) = build2(rec);
                 let c = c.expect("curve");
+                let t = match tfk { 0 => engeom::geom2::Iso2::identity(), 1 => engeom::geom2::Iso2::translation(1.0 * s, -2.0 * s),
+                                    _ => engeom::geom2::Iso2::new(engeom::geom2::Vector2::new(-1.0 * s, 2.0 * s), std::f64::consts::FRAC_PI_2) };
+                let c = if tfk == 0 { c } else { c.transformed_by(&t) };
+                let ti = t.inverse();
                 for qq in &qs {
-                    let p = Point2::new(qq[0] as f64 / 2.0 * s, qq[1] as f64 / 2.0 * s);
+                    let p = t * Point2::new(qq[0] as f64 / 2.0 * s, qq[1] as f64 / 2.0 * s);
                     let st = c.at_closest_to_point(&p);
                     let d = c.dist_to_point(&p);
-                    let sp = st.point();
+                    let spm = st.point();
+                    let sp = ti * spm;
+                    let dir = ti * st.direction().into_inner();
                     let dd = 2.0 * d / s;
+                    let mut qd = Q::new();
                     outs.push(json!({"idx": st.index(), "fq": q.q(st.fraction(), QFC),
                         "p": [q.q(2.0 * sp.x / s, QPC), q.q(2.0 * sp.y / s, QPC), 0],
-                        "dq2": q.q(dd * dd, 64.0), "dres": q.q((d - (p - sp).norm()) / s, 1048576.0)}));
+                        "d": [qd.q(dir.x, QDIR), qd.q(dir.y, QDIR), 0], "dfin": qd.finite,
+                        "dq2": q.q(dd * dd, 64.0), "dres": q.q((d - (p - spm).norm()) / s, 1048576.0)}));
                 }
             } else {
                 let (s, c) = build3(rec);
                 let c = c.expect("curve");
+                let t = iso_table(tfk, s).unwrap_or(Iso3::identity());
+                let c = if tfk == 0 { c } else { c.transformed_by(&t) };
+                let ti = t.inverse();
                 for qq in &qs {
-                    let p = Point3::new(qq[0] as f64 / 2.0 * s, qq[1] as f64 / 2.0 * s, qq[2] as f64 / 2.0 * s);
+                    let p = t * Point3::new(qq[0] as f64 / 2.0 * s, qq[1] as f64 / 2.0 * s, qq[2] as f64 / 2.0 * s);
                     let st = c.at_closest_to_point(&p);
                     let d = c.dist_to_point(&p);
-                    let sp = st.point();
+                    let spm = st.point();
+                    let sp = ti * spm;
+                    let dir = ti * st.direction().into_inner();
                     let dd = 2.0 * d / s;
+                    let mut qd = Q::new();
                     outs.push(json!({"idx": st.index(), "fq": q.q(st.fraction(), QFC),
                         "p": [q.q(2.0 * sp.x / s, QPC), q.q(2.0 * sp.y / s, QPC), q.q(2.0 * sp.z / s, QPC)],
-                        "dq2": q.q(dd * dd, 64.0), "dres": q.q((d - (p - sp).norm()) / s, 1048576.0)}));
+                        "d": [qd.q(dir.x, QDIR), qd.q(dir.y, QDIR), qd.q(dir.z, QDIR)], "dfin": qd.finite,
+                        "dq2": q.q(dd * dd, 64.0), "dres": q.q((d - (p - spm).norm()) / s, 1048576.0)}));
                 }
             }
             json!({"q": outs, "finite": q.finite})
